@@ -32,6 +32,24 @@ HARNESS_TO_CLASSES = {
     "RealVector": ["vector"], "RealMatrix": ["matrix"], "CompressedRealMatrix": ["compressed_matrix", "compressed_matrix_impl", "MatrixStorage"],
     "CARTree": ["CARTree", "Node"], "SimplexDownhill": ["SimplexDownhill"],
 }
+_HV = ["IndicatorBasedSelection", "HypervolumeIndicator", "HypervolumeContribution", "HypervolumeContributionApproximator"]
+_IND = ["Individual", "ResultSet"]
+_CMAIND = _IND + ["CMAChromosome", "MultiVariateNormalDistributionCholesky", "cholesky_decomposition"]
+_VAR = ["SimulatedBinaryCrossover", "PolynomialMutator"]
+HARNESS_TO_CLASSES.update({
+    "SMSEMOA": ["SMSEMOA"] + _HV + _VAR + _IND,
+    "MOCMA": ["IndicatorBasedMOCMA"] + _HV + _CMAIND,
+    "EpsilonMOCMA": ["IndicatorBasedMOCMA", "IndicatorBasedSelection", "AdditiveEpsilonIndicator"] + _CMAIND,
+    "SteadyStateMOCMA": ["IndicatorBasedSteadyStateMOCMA"] + _HV + _CMAIND,
+    "RealCodedNSGAII": ["IndicatorBasedRealCodedNSGAII"] + _HV + _VAR + _IND,
+    "EpsRealCodedNSGAII": ["IndicatorBasedRealCodedNSGAII", "IndicatorBasedSelection", "AdditiveEpsilonIndicator"] + _VAR + _IND,
+    "CrowdingRealCodedNSGAII": ["IndicatorBasedRealCodedNSGAII", "IndicatorBasedSelection", "CrowdingDistance"] + _VAR + _IND,
+    "RealCodedNSGAIII": ["IndicatorBasedRealCodedNSGAII", "IndicatorBasedSelection", "NSGA3Indicator"] + _VAR + _IND,
+    "HypervolumeIndicator": _HV[1:], "IndicatorBasedSelection": _HV,
+    "CMAIndividual": _CMAIND,
+    "WeightedUnlabeledData": ["BaseWeightedDataset", "Data", "SharedContainer", "Shape"],
+    "WeightedLabeledData": ["BaseWeightedDataset", "LabeledData", "Data", "SharedContainer", "Shape"],
+})
 
 
 # Classes of the UNCHANGED tree whose round trip fails, reported to the lead and waiting for the decision between a fix
@@ -91,7 +109,7 @@ def coqc_class(gen_root, path, outdir=None):
     failed = []
     src = open(path).read()
     cur = src; tmp = path
-    for it in range(5):
+    for it in range(8):
         cmd = ["coqc", "-Q", os.path.join(COQ, "theories"), "SharkV", "-Q", gen_root, "SharkGen", tmp]
         rc, out, err = sh(cmd, timeout=300)
         if rc == 0:
@@ -133,9 +151,9 @@ def run_translator(ck):
                 q = os.path.join(gdir, f[:-2] + ext)
                 if os.path.exists(q): os.remove(q)
     # the model must be compiled first
-    ok, lg = coq_build(["theories/C18Model.vo"])
+    ok, lg = coq_build(["theories/C18NestedProofs.vo"])
     if not ok:
-        ck.oblige("C18Model.v compiles", False, lg[-1500:])
+        ck.oblige("C18Model.v / C18Nested*.v compile", False, lg[-1500:])
         return results, {}
     with ThreadPoolExecutor(max_workers=6) as ex:
         outs = list(ex.map(lambda r: coqc_class(groot, os.path.join(gdir, "C18_%s.v" % TS.ident(r["uid"]))), results))
@@ -153,7 +171,76 @@ def run_translator(ck):
     write_if_changed(os.path.join(groot, "C18Classes.v"), "\n".join(idx) + "\n")
     rc, out, err = sh(["coqc", "-Q", os.path.join(COQ, "theories"), "SharkV", "-Q", groot, "SharkGen", os.path.join(groot, "C18Classes.v")], timeout=300)
     ck.oblige("gen/C18Classes.v (index of %d class files) compiles" % len(good), rc == 0, err[-800:])
+    nested_compose(ck, groot, results, status)
     return results, status
+
+
+def nested_compose(ck, groot, results, status):
+    """gen/C18NestedAll.v: plug the per-class nested descriptions together (member classes first) and instantiate the
+    nested round-trip / coverage theorem of C18NestedProofs.v for every class whose own obligations and those of all
+    classes nested in it hold.  rw of a class USES rw of its member classes (rewrite deep_rw_<Y>; apply nrw_<X>)."""
+    byuid = {r["uid"]: r for r in results}
+    okcls = {u for u, r in byuid.items() if status.get(u, (False,))[0] and not r["problems"]}
+    blocked = {}
+    for u, r in byuid.items():
+        if u not in okcls: blocked[u] = "own obligations fail"
+        elif r["nested"]["loops"]: blocked[u] = "loop over constructor-fixed structure (described per iteration count, not composed)"
+        elif r["nested"]["read"] != r["nested"]["write"]: blocked[u] = "member classes differ between read and write"
+    order = []; state = {}
+    def visit(u, path):
+        if u in blocked: return False
+        if state.get(u) == "done": return True
+        if u in path:
+            blocked[u] = "recursive type"; return False
+        for y in byuid[u]["nested"]["write"]:
+            if y not in byuid or not visit(y, path + [u]):
+                blocked.setdefault(u, "member class %s: %s" % (y, blocked.get(y, "not translated")))
+                return False
+        state[u] = "done"; order.append(u); return True
+    for u in sorted(byuid): visit(u, [])
+    L = ["(* GENERATED by tools/c18.py -- do not edit.  Nested descriptions of %d classes composed from the per-class files;" % len(order),
+         "   not composed (%d):" % len(blocked)]
+    L += ["     %s : %s" % (u, w) for u, w in sorted(blocked.items())]
+    L += ["*)", "From Coq Require Import List String.", "From SharkV Require Import C18Model C18Nested C18NestedProofs."]
+    L += ["From SharkGen.c18 Require Import C18_%s." % TS.ident(u) for u in order]
+    L += ["Import ListNotations.", "Open Scope list_scope."]
+    for u in order:
+        X = TS.ident(u); ns = byuid[u]["nested"]["write"]
+        L.append("Definition W_%s : desc := wdesc_%s%s." % (X, X, "".join(" W_" + TS.ident(y) for y in ns)))
+        L.append("Definition R_%s : desc := rdesc_%s%s." % (X, X, "".join(" R_" + TS.ident(y) for y in ns)))
+        rw = " ".join("rewrite ?deep_rw_%s." % TS.ident(y) for y in ns)
+        L.append("Theorem deep_rw_%s : R_%s = W_%s.\nProof. unfold R_%s, W_%s. %s apply nrw_%s. Qed." % (X, X, X, X, X, rw, X))
+        L.append("Theorem deep_wf_%s : wfd W_%s = true.\nProof. vm_compute. reflexivity. Qed." % (X, X))
+        L.append("Theorem deep_cover_%s : ncovers W_%s = true.\nProof. vm_compute. reflexivity. Qed." % (X, X))
+        L.append("Theorem roundtrip_%s : forall x fresh rest, ntyped W_%s x = true ->\n  exists x', nread R_%s fresh (nwrite W_%s x ++ rest) = Some (x', rest) /\\ streq W_%s x x' /\\ restored W_%s x x'.\n"
+                 "Proof. exact (nested_class_roundtrip R_%s W_%s deep_rw_%s deep_wf_%s deep_cover_%s). Qed." % ((X,) * 11))
+    deep = [u for u in order if byuid[u]["nested"]["write"]]
+    for u in deep[:3] + order[-1:]: L.append("Print Assumptions roundtrip_%s." % TS.ident(u))
+    fn = os.path.join(groot, "C18NestedAll.v")
+    write_if_changed(fn, "\n".join(L) + "\n")
+    rc, out, err = sh(["coqc", "-Q", os.path.join(COQ, "theories"), "SharkV", "-Q", groot, "SharkGen", fn], timeout=600)
+    closed = out.count("Closed under the global context")
+    ck.oblige("gen/C18NestedAll.v: nested round-trip theorem instantiated for %d classes (%d of them with member classes; rw/cover of a class use those of its member classes), axiom-free" % (len(order), len(deep)),
+              rc == 0 and closed == len(set(deep[:3] + order[-1:])), (err[-800:] + " | Print Assumptions: " + out[-300:]) if rc != 0 or closed == 0 else "")
+    # tie of the hand-written Data<T> layout (C18Nested.v: data_desc_prim / shape_desc, for which the Data<T> theorems are
+    # proved) to the description regenerated from Dataset.h / Dataset.inl / Shape.h on this run
+    if rc == 0 and all(c in order for c in ("Data", "SharedContainer", "Shape", "LabeledData")):
+        T = ["(* GENERATED by tools/c18.py -- do not edit. *)", "From Coq Require Import List String.",
+             "From SharkV Require Import C18Model C18Nested C18NestedProofs.", "From SharkGen Require Import C18NestedAll.",
+             "Import ListNotations.", "Open Scope string_scope.", "Open Scope list_scope.",
+             "Theorem data_layout_tie : exists tag, W_Data = data_desc_prim (KAtom tag).\nProof. eexists. reflexivity. Qed.",
+             "Theorem shape_layout_tie : W_Shape = shape_desc.\nProof. reflexivity. Qed.",
+             "Theorem labeled_data_layout_tie : exists tag, W_LabeledData = DObj [\"m_data\"; \"m_label\"] [] (FCons \"m_data\" \"m_data\" \"\" (data_desc_prim (KAtom tag)) (FCons \"m_label\" \"m_label\" \"\" (data_desc_prim (KAtom tag)) FNil)).\nProof. eexists. reflexivity. Qed."]
+        tf = os.path.join(groot, "C18DataTie.v")
+        write_if_changed(tf, "\n".join(T) + "\n")
+        rc2, out2, err2 = sh(["coqc", "-Q", os.path.join(COQ, "theories"), "SharkV", "-Q", groot, "SharkGen", tf], timeout=300)
+        ck.oblige("gen/C18DataTie.v: regenerated descriptions of Data / LabeledData / Shape equal the modelled layout (data_desc_prim, shape_desc) the Data<T> theorems are about",
+                  rc2 == 0, err2[-800:])
+    else:
+        ck.oblige("gen/C18DataTie.v: Data / SharedContainer / Shape / LabeledData composed", False,
+                  "; ".join("%s: %s" % (c, blocked.get(c, "?")) for c in ("Data", "SharedContainer", "Shape", "LabeledData") if c not in order))
+    ck.notes["nested_composed"] = {"classes": order, "with_member_classes": {u: byuid[u]["nested"]["write"] for u in deep}, "not_composed": blocked}
+    log("[C18] nested: %d classes composed (%d with member classes), %d not composed" % (len(order), len(deep), len(blocked)))
 
 
 def explain(r, failed):
@@ -180,6 +267,9 @@ def explain(r, failed):
                 msgs.append(("cover", "member %s (%s, declared in %s) is neither streamed by write nor listed as transient" % (m, r["member_types"].get(m, "?"), r["member_decl"].get(m, "?")), m))
         elif th.startswith("stale_"):
             msgs.append(("stale", "transient table entry no longer matches the class (member gone or now streamed)", "transient"))
+        elif th.startswith("nrw_"):
+            if any(t.startswith("rw_") for t in failed): continue        # the same mismatch, already explained by rw_X
+            msgs.append(("rw", "nested read/write descriptions differ (member-class references)", "nested"))
         elif th.startswith("translator_ok_"):
             msgs.append(("translator", "; ".join(r["problems"]), "translator"))
         else:
